@@ -138,21 +138,23 @@ def d1_contiguity(ctx, RA, step, appenders):
                 subarray_role(ctx, node.func.value, f) == 'INDICESDIR':
             rows.append(node)
     for r in rows:
-        row = r.args[0] if r.args else None
+        row = r.args[0] if r.args else get_arg(r, None, 'array')
         good = False
-        if isinstance(row, ast.List) and len(row.elts) == 1 and isinstance(row.elts[0], ast.List):
-            s, e = row.elts[0].elts
-            sd = [v for v, _ in defs_of(f.node, s.id)] if isinstance(s, ast.Name) else [s]
-            ed = [v for v, _ in defs_of(f.node, e.id)] if isinstance(e, ast.Name) else [e]
-            # tuple assignment `starti, endi = valueslen, valueslen + incr`
-            for sv in sd:
-                if isinstance(sv, ast.Tuple) and len(sv.elts) == 2:
-                    a0, a1 = sv.elts
-                    if isinstance(a1, ast.BinOp) and isinstance(a1.op, ast.Add) and norm(a0) in (norm(a1.left), norm(a1.right)):
-                        other = a1.right if norm(a1.left) == norm(a0) else a1.left
-                        names = derived(f.node, other)
-                        good = any(isinstance(dv, ast.Call) and any(t2 in appenders for k, t2 in ctx.R.resolve_call(dv, f) if k == 'repo')
-                                   for nm in names for dv, _ in defs_of(f.node, nm))
+        # locals inlined: the row is [[L, L + n]] where n is (derived from) the count returned by the values appender
+        # and L the running values length
+        rowi = inline(f, row) if row is not None else None
+        if isinstance(rowi, ast.List) and len(rowi.elts) == 1 and isinstance(rowi.elts[0], (ast.List, ast.Tuple)) and \
+                len(rowi.elts[0].elts) == 2:
+            s_, e_ = rowi.elts[0].elts
+            if isinstance(e_, ast.BinOp) and isinstance(e_.op, ast.Add) and norm(s_) in (norm(e_.left), norm(e_.right)):
+                other = e_.right if norm(e_.left) == norm(s_) else e_.left
+                def from_appender(x):
+                    if isinstance(x, ast.Call):
+                        return any(t2 in appenders for k, t2 in ctx.R.resolve_call(x, f) if k == 'repo')
+                    if isinstance(x, ast.Name):
+                        return any(from_appender(dv) for dv, _ in defs_of(f.node, x.id))
+                    return False
+                good = from_appender(other)
         ctx.decide(good, 'R-FLOW', 'D1', f, r, 'loop-row',
                    'asraggedarray: each further row is [running values length, running values length + count returned by the values appender]',
                    detail='index row of the creation loop is not built from the running values length')
